@@ -1,4 +1,5 @@
 import OmplModel.Proofs.SpaceInterpExamples
+import OmplModel.Proofs.SpaceInterpExamplesGeo
 import OmplModel.Generated.RwSets
 import OmplModel.Proofs.SpaceInterpWeights
 /-!
@@ -17,11 +18,13 @@ Coverage.  Shape: all spaces.  End points / bounds: all spaces; SO(3) components
 quaternions (`unitQuats`; `t = 1` gives `±to`, i.e. `equalStates`), Klein components need `u` in
 the exact range `[0, π]` (`kleinRange`; the coded bounds predicate has a ±eps slack and a state with
 `u ∈ [-eps, 0)` crosses the seam at t = 0), Klein `t = 1` on the seam branch needs `0 < to.u < π`.
-Re-parameterisation: rv, so2, time, torus, sphere, compounds, wrapper (NOT discrete, SO(3), Mobius,
-Klein).  Proportional distance: the `geodesic false` spaces (rv, so2, time, torus, weighted
-compounds, wrapper).  SO(3) re-parameterisation / proportional distance (the latter fails as coded
-below the 1e-9 clamp of `arcLength`), Mobius / Klein re-parameterisation: compared against the
-implementation only.
+Re-parameterisation: rv, so2, time, torus, sphere, compounds, wrapper (`interp_reparam`); SO(3)
+leaves too when both legs used are above the clamp threshold of `arcLength` (`interp_reparam_so3`,
+section 8); Mobius / Klein only away from the seam (cylinder branch, section 9); NOT discrete.
+Proportional distance: the `geodesic false` spaces (rv, so2, time, torus, weighted compounds,
+wrapper); with SO(3) leaves (`geodesic true`) only outside the clamp band of the coded distance
+(`interp_dist_prop_so3_partial`; inside the band it FAILS as coded: `so3_interp_dist_prop_fails`).
+Mobius / Klein re-parameterisation across the seam: compared against the implementation only.
 -/
 open scoped OmplModel.SpaceInterp.RealNum
 attribute [-instance] OmplModel.Num.instOfNat
@@ -242,7 +245,8 @@ example : dist nested nestedA (interpolate nested nestedA nestedB (1 / 3))
 The bounds predicate `so3InB` tolerates a norm error of 1e-9; the theorems below assume norm² = 1
 exactly (`unitQuats`), which is what real-arithmetic slerp preserves.  Proportional distance does
 not hold for SO(3) *as coded* (`arcLength` clamps to 0 above `1 - 1e-9`), so `interp_dist_prop`
-excludes it; re-parameterisation for SO(3) is compared against the implementation only. -/
+excludes it; see section 8 for the distance outside the clamp band, the failing witness, and
+re-parameterisation. -/
 
 /-- [EX] SO(3): t = 0 returns `from` exactly (both branches; any quaternions) -/
 theorem so3_interp_zero (x1 y1 z1 w1 x2 y2 z2 w2 : ℝ) :
@@ -351,6 +355,174 @@ theorem interp_inbounds_all (sp : Space ℝ) (a b : St ℝ) (t : ℝ)
 example : inBounds allSp (interpolate allSp allA allB (1 / 3)) = true :=
   interp_inbounds_all _ _ _ _ allA_wt allB_wt allA_inB allB_inB allA_unit allB_unit
     allA_klein allB_klein (by norm_num) (by norm_num)
+
+/-! ## 8. SO(3): geodesic facts of the slerp branch (exactly-unit quaternions)
+
+`dq := quatDot from to`, `e := 1e-9` (`maxQuatErr`), `θ := arccos |dq|`.  The slerp branch is taken iff
+`|dq| ≤ 1 - e`; otherwise `arcLength = 0` and the code copies `from`. -/
+
+/-- [EX] SO(3), slerp branch: `⟨from, result⟩ = cos(t θ)`, hence the UNCLAMPED arc length
+`arccos |⟨from, result⟩|` is exactly `t θ`.  (Only `from` needs to be unit.) -/
+theorem so3_interp_dist_prop_unclamped (x1 y1 z1 w1 x2 y2 z2 w2 t : ℝ)
+    (h1 : x1 * x1 + y1 * y1 + z1 * z1 + w1 * w1 = 1)
+    (hd : |quatDot x1 y1 z1 w1 x2 y2 z2 w2| ≤ 1 - 1 / 10 ^ 9) (ht0 : 0 ≤ t) (ht1 : t ≤ 1) :
+    ∃ x y z w, so3Interp x1 y1 z1 w1 x2 y2 z2 w2 t = .so3 x y z w ∧
+      quatDot x1 y1 z1 w1 x y z w = Real.cos (t * Real.arccos |quatDot x1 y1 z1 w1 x2 y2 z2 w2|) ∧
+      Real.arccos |quatDot x1 y1 z1 w1 x y z w|
+        = t * Real.arccos |quatDot x1 y1 z1 w1 x2 y2 z2 w2| := by
+  have h := arcLength_big_of_le hd
+  obtain ⟨x, y, z, w, e, ha⟩ := so3Interp_arc_unclamped h1 h ht0 ht1
+  obtain ⟨x', y', z', w', e', hq⟩ := quatDot_from_slerp t h1 h
+  rw [e] at e'; cases e'
+  exact ⟨x, y, z, w, e, by rw [hq, (arcLength_big h).2], ha⟩
+
+example : ∃ x y z w, so3Interp (0 : ℝ) 0 0 1 1 0 0 0 (2 / 3) = .so3 x y z w ∧
+    quatDot 0 0 0 1 x y z w = Real.cos (2 / 3 * Real.arccos |quatDot (0 : ℝ) 0 0 1 1 0 0 0|) ∧
+    Real.arccos |quatDot 0 0 0 1 x y z w| = 2 / 3 * Real.arccos |quatDot (0 : ℝ) 0 0 1 1 0 0 0| :=
+  so3_interp_dist_prop_unclamped _ _ _ _ _ _ _ _ _ (by norm_num) orth_dot_le (by norm_num) (by norm_num)
+
+/-- [EX] SO(3), CODED distance (`arcLength`, clamped to 0 above `1 - e`): proportional to t outside
+the clamp band.  `_partial`: the full clause "dist(from, interpolate t) = t dist(from, to) for all
+t ∈ [0,1]" is FALSE as coded (see `so3_interp_dist_prop_fails`); the excluded set is exactly
+`hband` failing, i.e. slerp branch and `cos(t θ) > 1 - e`.  The copy branch (`|dq| > 1 - e`) is
+covered (both sides 0). -/
+theorem so3_interp_dist_prop_partial (x1 y1 z1 w1 x2 y2 z2 w2 t : ℝ)
+    (h1 : x1 * x1 + y1 * y1 + z1 * z1 + w1 * w1 = 1) (ht0 : 0 ≤ t) (ht1 : t ≤ 1)
+    (hband : |quatDot x1 y1 z1 w1 x2 y2 z2 w2| ≤ 1 - 1 / 10 ^ 9 →
+      Real.cos (t * Real.arccos |quatDot x1 y1 z1 w1 x2 y2 z2 w2|) ≤ 1 - 1 / 10 ^ 9) :
+    dist .so3 (.so3 x1 y1 z1 w1) (interpolate .so3 (.so3 x1 y1 z1 w1) (.so3 x2 y2 z2 w2) t)
+      = t * dist .so3 (.so3 x1 y1 z1 w1) (.so3 x2 y2 z2 w2) :=
+  so3Interp_dist_band h1 ht0 ht1 (band_hyp_of (fun θ => t * θ) hband)
+
+example : dist .so3 (.so3 0 0 0 1) (interpolate .so3 (.so3 (0 : ℝ) 0 0 1) (.so3 1 0 0 0) (2 / 3))
+    = 2 / 3 * dist .so3 (.so3 (0 : ℝ) 0 0 1) (.so3 1 0 0 0) :=
+  so3_interp_dist_prop_partial _ _ _ _ _ _ _ _ _ (by norm_num) (by norm_num) (by norm_num)
+    (fun _ => orth_band)
+
+/-- [EX] F5: inside the clamp band proportional distance FAILS as coded.  Witness: from = (0,0,0,1),
+to = (1,0,0,0) (dq = 0, θ = π/2), t = 1e-6: `cos(t π/2) > 1 - 1e-9`, so the coded distance of the
+result is 0, but `t * dist = t π/2 > 0`. -/
+theorem so3_interp_dist_prop_fails :
+    ∃ x1 y1 z1 w1 x2 y2 z2 w2 t : ℝ,
+      x1 * x1 + y1 * y1 + z1 * z1 + w1 * w1 = 1 ∧ x2 * x2 + y2 * y2 + z2 * z2 + w2 * w2 = 1 ∧
+      0 ≤ t ∧ t ≤ 1 ∧
+      dist .so3 (.so3 x1 y1 z1 w1) (interpolate .so3 (.so3 x1 y1 z1 w1) (.so3 x2 y2 z2 w2) t)
+        ≠ t * dist .so3 (.so3 x1 y1 z1 w1) (.so3 x2 y2 z2 w2) := by
+  refine ⟨0, 0, 0, 1, 1, 0, 0, 0, 1 / 1000000, by norm_num, by norm_num, by norm_num, by norm_num, ?_⟩
+  obtain ⟨h0, hθ⟩ := so3Interp_dist_witness
+  show dist .so3 (.so3 0 0 0 1) (so3Interp (0 : ℝ) 0 0 1 1 0 0 0 (1 / 1000000))
+    ≠ 1 / 1000000 * arcLength (0 : ℝ) 0 0 1 1 0 0 0
+  rw [h0, hθ]
+  have := pi_pos
+  intro h; linarith
+
+-- non-vacuity of the witness is the theorem itself; the fixed-distance value at the witness:
+example : dist .so3 (.so3 0 0 0 1) (so3Interp (0 : ℝ) 0 0 1 1 0 0 0 (1 / 1000000)) = 0 :=
+  so3Interp_dist_witness.1
+
+/-- [EX] SO(3) re-parameterisation, EXACT equality (no sign ambiguity), unit `to`: if the leg
+`from → to` is in the slerp branch then the remaining leg `(1-s)θ` must be above the clamp threshold
+too (`hleg`); if `from → to` is in the copy branch both sides are `from`.  (`from` need not be unit.) -/
+theorem so3_interp_reparam (x1 y1 z1 w1 x2 y2 z2 w2 s u : ℝ)
+    (h2 : x2 * x2 + y2 * y2 + z2 * z2 + w2 * w2 = 1) (hs0 : 0 ≤ s) (hs1 : s ≤ 1)
+    (hleg : |quatDot x1 y1 z1 w1 x2 y2 z2 w2| ≤ 1 - 1 / 10 ^ 9 →
+      Real.cos ((1 - s) * Real.arccos |quatDot x1 y1 z1 w1 x2 y2 z2 w2|) ≤ 1 - 1 / 10 ^ 9) :
+    interpolate .so3 (interpolate .so3 (.so3 x1 y1 z1 w1) (.so3 x2 y2 z2 w2) s) (.so3 x2 y2 z2 w2) u
+      = interpolate .so3 (.so3 x1 y1 z1 w1) (.so3 x2 y2 z2 w2) (s + (1 - s) * u) :=
+  so3_reparam_leaf s u h2 hs0 hs1 (band_hyp_of (fun θ => (1 - s) * θ) hleg)
+
+example : interpolate .so3 (interpolate .so3 (.so3 (0 : ℝ) 0 0 1) (.so3 1 0 0 0) (1 / 3)) (.so3 1 0 0 0) (1 / 2)
+    = interpolate .so3 (.so3 (0 : ℝ) 0 0 1) (.so3 1 0 0 0) (1 / 3 + (1 - 1 / 3) * (1 / 2)) :=
+  so3_interp_reparam _ _ _ _ _ _ _ _ _ _ (by norm_num) (by norm_num) (by norm_num) (fun _ => orth_leg)
+
+/-- [EX] re-parameterisation for compounds with SO(3) leaves (`reparamOk3`: rv, so2, so3, time, torus,
+sphere, compounds, wrapper; excludes disc, mobius, klein): `to` quaternions exactly unit, every SO(3)
+leaf satisfies the leg condition of `so3_interp_reparam` (`so3ReparamOk`) -/
+theorem interp_reparam_so3 (sp : Space ℝ) (a b : St ℝ) (s u : ℝ) (hsp : reparamOk3 sp = true)
+    (hwa : wellTyped sp a = true) (hwb : wellTyped sp b = true)
+    (hba : inBounds sp a = true) (hbb : inBounds sp b = true)
+    (hub : unitQuats sp b) (hok : so3ReparamOk sp a b s)
+    (hs0 : 0 ≤ s) (hs1 : s ≤ 1) (hu0 : 0 ≤ u) (hu1 : u ≤ 1) :
+    interpolate sp (interpolate sp a b s) b u = interpolate sp a b (s + (1 - s) * u) :=
+  interpolate_reparam_so3 sp a b s u hsp hwa hwb hba hbb hub hok hs0 hs1 hu0 hu1
+
+example : interpolate se3 (interpolate se3 se3A se3B (1 / 3)) se3B (1 / 2)
+    = interpolate se3 se3A se3B (1 / 3 + (1 - 1 / 3) * (1 / 2)) :=
+  interp_reparam_so3 _ _ _ _ _ se3_geo.2 se3A_wt se3B_wt se3A_inB se3B_inB se3B_unit se3_reparamOk
+    (by norm_num) (by norm_num) (by norm_num) (by norm_num)
+example : interpolate nested3 (interpolate nested3 nested3A nested3B (1 / 3)) nested3B (1 / 2)
+    = interpolate nested3 nested3A nested3B (1 / 3 + (1 - 1 / 3) * (1 / 2)) :=
+  interp_reparam_so3 _ _ _ _ _ nested3_geo.2 nested3A_wt nested3B_wt nested3A_inB nested3B_inB
+    nested3B_unit nested3_reparamOk (by norm_num) (by norm_num) (by norm_num) (by norm_num)
+
+/-- [EX] proportional CODED distance for the `geodesic true` spaces (rv, so2, so3, time, torus, weighted
+compounds, wrapper): `from` quaternions exactly unit, every SO(3) leaf outside the clamp band at `t`
+(`so3OutsideBand`).  `_partial`: inside the band the clause fails as coded (`so3_interp_dist_prop_fails`). -/
+theorem interp_dist_prop_so3_partial (sp : Space ℝ) (a b : St ℝ) (t : ℝ)
+    (hsp : geodesic true sp = true)
+    (hwa : wellTyped sp a = true) (hwb : wellTyped sp b = true)
+    (hba : inBounds sp a = true) (hbb : inBounds sp b = true)
+    (hua : unitQuats sp a) (hband : so3OutsideBand sp a b t) (ht0 : 0 ≤ t) (ht1 : t ≤ 1) :
+    dist sp a (interpolate sp a b t) = t * dist sp a b :=
+  interpolate_dist_prop_so3 sp a b t hsp hwa hwb hba hbb hua hband ht0 ht1
+
+example : dist se3 se3A (interpolate se3 se3A se3B (2 / 3)) = 2 / 3 * dist se3 se3A se3B :=
+  interp_dist_prop_so3_partial _ _ _ _ se3_geo.1 se3A_wt se3B_wt se3A_inB se3B_inB se3A_unit
+    se3_outsideBand (by norm_num) (by norm_num)
+example : dist nested3 nested3A (interpolate nested3 nested3A nested3B (2 / 3))
+    = 2 / 3 * dist nested3 nested3A nested3B :=
+  interp_dist_prop_so3_partial _ _ _ _ nested3_geo.1 nested3A_wt nested3B_wt nested3A_inB nested3B_inB
+    nested3A_unit nested3_outsideBand (by norm_num) (by norm_num)
+
+/-! ## 9. Mobius / Klein re-parameterisation away from the seam (cylinder branch) -/
+
+/-- [EX] Mobius, `|Δu| ≤ π`: exact re-parameterisation (the second leg stays in the cylinder branch) -/
+theorem mobius_interp_reparam_cylinder (imax rad u1 v1 u2 v2 s u : ℝ)
+    (hu1 : so2InB u1 = true) (hu2 : so2InB u2 = true) (hcyl : |u2 - u1| ≤ π)
+    (hs0 : 0 ≤ s) (hs1 : s ≤ 1) (hu0 : 0 ≤ u) (hu1' : u ≤ 1) :
+    interpolate (.mobius imax rad)
+        (interpolate (.mobius imax rad) (.ccons (.so2 u1) (.ccons (.rv [v1]) .cnil))
+          (.ccons (.so2 u2) (.ccons (.rv [v2]) .cnil)) s)
+        (.ccons (.so2 u2) (.ccons (.rv [v2]) .cnil)) u
+      = interpolate (.mobius imax rad) (.ccons (.so2 u1) (.ccons (.rv [v1]) .cnil))
+          (.ccons (.so2 u2) (.ccons (.rv [v2]) .cnil)) (s + (1 - s) * u) := by
+  rw [so2InB_iff] at hu1 hu2
+  simp only [interpolateW,
+    mobiusInterp_reparam_cyl (v1 := v1) (v2 := v2) hu1.1 hu1.2 hu2.1 hu2.2 hcyl hs0 hs1 hu0 hu1']
+
+example : interpolate (.mobius 1 2)
+      (interpolate (.mobius 1 2) (.ccons (.so2 0) (.ccons (.rv [1]) .cnil))
+        (.ccons (.so2 (1 : ℝ)) (.ccons (.rv [-1]) .cnil)) (1 / 3))
+      (.ccons (.so2 1) (.ccons (.rv [-1]) .cnil)) (1 / 2)
+    = interpolate (.mobius 1 2) (.ccons (.so2 0) (.ccons (.rv [1]) .cnil))
+        (.ccons (.so2 1) (.ccons (.rv [-1]) .cnil)) (1 / 3 + (1 - 1 / 3) * (1 / 2)) :=
+  mobius_interp_reparam_cylinder _ _ _ _ _ _ _ _ zero_inB one_inB
+    (by rw [sub_zero, abs_one]; linarith [pi_gt_three])
+    (by norm_num) (by norm_num) (by norm_num) (by norm_num)
+
+/-- [EX] Klein, `|Δu| ≤ π/2`: exact re-parameterisation (the second leg stays in the cylinder branch) -/
+theorem klein_interp_reparam_cylinder (u1 v1 u2 v2 s u : ℝ)
+    (hv1 : so2InB v1 = true) (hv2 : so2InB v2 = true) (hcyl : |u2 - u1| ≤ 1 / 2 * π)
+    (hs0 : 0 ≤ s) (hs1 : s ≤ 1) (hu0 : 0 ≤ u) (hu1 : u ≤ 1) :
+    interpolate .klein
+        (interpolate .klein (.ccons (.rv [u1]) (.ccons (.so2 v1) .cnil))
+          (.ccons (.rv [u2]) (.ccons (.so2 v2) .cnil)) s)
+        (.ccons (.rv [u2]) (.ccons (.so2 v2) .cnil)) u
+      = interpolate .klein (.ccons (.rv [u1]) (.ccons (.so2 v1) .cnil))
+          (.ccons (.rv [u2]) (.ccons (.so2 v2) .cnil)) (s + (1 - s) * u) := by
+  rw [so2InB_iff] at hv1 hv2
+  simp only [interpolateW,
+    kleinInterp_reparam_cyl (u1 := u1) (u2 := u2) hv1.1 hv1.2 hv2.1 hv2.2 hcyl hs0 hs1 hu0 hu1]
+
+example : interpolate .klein
+      (interpolate .klein (.ccons (.rv [0]) (.ccons (.so2 3) .cnil))
+        (.ccons (.rv [(1 : ℝ)]) (.ccons (.so2 (-3)) .cnil)) (1 / 3))
+      (.ccons (.rv [1]) (.ccons (.so2 (-3)) .cnil)) (1 / 2)
+    = interpolate .klein (.ccons (.rv [0]) (.ccons (.so2 3) .cnil))
+        (.ccons (.rv [1]) (.ccons (.so2 (-3)) .cnil)) (1 / 3 + (1 - 1 / 3) * (1 / 2)) :=
+  klein_interp_reparam_cylinder _ _ _ _ _ _ three_inB.1 three_inB.2
+    (by rw [sub_zero, abs_one]; linarith [pi_gt_three])
+    (by norm_num) (by norm_num) (by norm_num) (by norm_num)
 
 /-! ## compound weights are irrelevant (zero-weight subspaces included)
 
